@@ -1,6 +1,6 @@
 ----------------------------- MODULE TcpAuthKeys -----------------------------
 (* The key list of the traces under validation.  lib/checks/ta_common.py REPLACES this file in TLC's scratch copy by
    the list the driver really used (names, classes, secrets, including the padding keys); this default is KeysQ. *)
-TraceKeys == << [name |-> 1, cls |-> 1, sec |-> 1], [name |-> 2, cls |-> 2, sec |-> 1], [name |-> 3, cls |-> 3, sec |-> 2],
+TraceKeys == << [name |-> 1, cls |-> 1, sec |-> 1], [name |-> 2, cls |-> 2, sec |-> 1], [name |-> 99, cls |-> 3, sec |-> 2],
                 [name |-> 4, cls |-> 4, sec |-> 2], [name |-> 5, cls |-> 1, sec |-> 1] >>
 ===============================================================================
